@@ -36,10 +36,13 @@ type Instance struct {
 	MergeStepLimit int
 	VCBatch        int
 	VCTimeoutMs    int
-	FeasTimeoutMs  int
-	StepLimit      int64
-	TimeLimit      time.Duration
-	Known          []KnownPred
+	// YieldAtUnlock: every sync.Mutex.Unlock is a preemption point (the next runnable goroutine
+	// continues): the schedule in which critical sections of different goroutines alternate.
+	YieldAtUnlock bool
+	FeasTimeoutMs int
+	StepLimit     int64
+	TimeLimit     time.Duration
+	Known         []KnownPred
 }
 
 // KnownPred characterises a recorded (not repaired) defect by a predicate over harness inputs.
